@@ -271,18 +271,19 @@ pub fn set_preference(name: String, value: String) -> Result<()> {
                 );
             }
         }
+        // the kind of value a preference takes is the kind of value it has now;
+        // a request that names an unknown preference or gives the wrong kind of value is an error and changes nothing
         let lower_case_value = value.to_lowercase();
-        if lower_case_value == "true" || lower_case_value == "false" {
-            pref_manager.set_api_boolean_pref(&name, value.to_lowercase() == "true");
-        } else {
-            match name.as_str() {
-                "Pitch" | "Rate" | "Volume" | "CapitalLetters_Pitch" | "MathRate" | "PauseFactor" => {
-                    pref_manager.set_api_float_pref(&name, to_float(&name, &value)?)
+        match pref_manager.pref_kind(&name) {
+            None => bail!("{} is an unknown MathCAT preference!", name),
+            Some("boolean") => {
+                if lower_case_value != "true" && lower_case_value != "false" {
+                    bail!("SetPreference: preference'{}'s value '{}' must be 'true' or 'false'", name, value);
                 }
-                _ => {
-                    pref_manager.set_string_pref(&name, &value)?;
-                }
-            }
+                pref_manager.set_api_boolean_pref(&name, lower_case_value == "true");
+            },
+            Some("number") => pref_manager.set_api_float_pref(&name, to_float(&name, &value)?),
+            _ => pref_manager.set_string_pref(&name, &value)?,
         };
         return Ok::<(), Error>(());
     })?;
